@@ -111,7 +111,10 @@ class EnumRng:
         self.ch = ch
         self.log = log
 
-    def uniform(self, lo, hi):
+    def uniform(self, lo=0.0, hi=1.0, size=None):
+        if size is not None:
+            import numpy as _np
+            return _np.array([self.uniform(lo, hi) for _ in range(int(_np.prod(size)))])
         k = self.ch.choose(3, "uniform")
         v = [lo, (lo + hi) / 2, lo + (hi - lo) * (1 - 2 ** -20)][k]
         self.log.append((lo, hi, v))
@@ -226,6 +229,37 @@ def jitter_seeds(args):
         viol.append(("seed-ignored", f"seeds {seed} and {seed+1} gave the same file", what))
     viol += judge_jitter(text, a, delta, what)
     return dict(n=3, viol=viol, states={("seed", seed, delta)})
+
+
+def jitter_hashseeds(args):
+    """the real CLI in fresh interpreters under different PYTHONHASHSEED values: same seed => same file"""
+    import subprocess
+    seed, delta = args
+    arrs = [("0.0", 2), ("0.0", 1), ("0.05", 3), ("0.05", 1), ("0.3", 1), ("1.0", 2), ("1.02", 1), ("7", 1)]
+    text = jitter_text(arrs)
+    d = tempfile.mkdtemp(prefix="verif_c20h_")
+    viol = []
+    outs = {}
+    try:
+        i = os.path.join(d, "in.csv")
+        with open(i, "w") as f:
+            f.write(text)
+        for hs in ("0", "1", "2", "3"):
+            o = os.path.join(d, f"out{hs}.csv")
+            env = dict(os.environ, PYTHONHASHSEED=hs, PYTHONPATH=boot.REPO)
+            r = subprocess.run([sys.executable, "-m", "eudoxia", "tools", "jitter", i, o, str(delta), "-s", str(seed)], capture_output=True, text=True, env=env, cwd=d)
+            if r.returncode != 0 or not os.path.exists(o):
+                viol.append(("cli-failed", f"PYTHONHASHSEED={hs}: rc={r.returncode} {r.stderr[-300:]}", dict(seed=seed, delta=delta, hashseed=hs)))
+                continue
+            outs[hs] = rows_of(open(o).read())
+        ref = outs.get("0")
+        for hs, rows in outs.items():
+            if ref is not None and rows != ref:
+                viol.append(("not-reproducible-across-processes", f"seed {seed}, delta {delta}: PYTHONHASHSEED={hs} wrote different arrivals than PYTHONHASHSEED=0", dict(seed=seed, delta=delta, hashseed=hs)))
+            viol += judge_jitter(text, "\n".join([tf.HEADER] + [",".join(r[c] for c in tf.HEADER.split(",")) for r in rows]) + "\n", delta, dict(seed=seed, delta=delta, hashseed=hs))
+    finally:
+        shutil.rmtree(d, ignore_errors=True)
+    return dict(n=len(outs), viol=viol, states={("hashseed", seed, delta)})
 
 
 # ------------------------------------------------------------------ sensitivity-sample
@@ -352,6 +386,13 @@ def main(tier, seed):
                 continue
             rep.add_violations([Violation("jitter-seeds", kind, d, sc, [], family="jitter")])
     rep.part("jitter-seeds", seeds=len(res) // 2)
+    res = pmap(jitter_hashseeds, [(seed + 7, 0.1), (seed + 8, 0.25)], chunks=1)
+    for r in res:
+        rep.cov["evaluations"] += r["n"]
+        rep.add_states(r["states"])
+        for kind, d, sc in r["viol"]:
+            rep.add_violations([Violation("jitter-processes", kind, d, sc, [], family="jitter")])
+    rep.part("jitter-processes", hash_seeds=4, traces=2)
     res = pmap(sample_seeds, [42, 0, 1000 + seed], chunks=1)
     for r in res:
         rep.cov["evaluations"] += r["n"]
